@@ -289,7 +289,7 @@ fn main() {
     let configs: Vec<(usize, usize, Vec<usize>, usize)> = if thorough {
         vec![(2, 3, all_ops.clone(), 9), (3, 2, all_ops.clone(), 8), (3, 3, core_ops.clone(), 9)]
     } else {
-        vec![(2, 2, all_ops.clone(), 7), (2, 3, core_ops.clone(), 8)]
+        vec![(2, 2, all_ops.clone(), 7), (2, 3, core_ops.clone(), 6)]
     };
     if let Some(path) = &args.replay {
         let r = vh::report::load_replay(path);
@@ -317,7 +317,7 @@ fn main() {
     for (nodes, max_ops, ops, depth) in &configs {
         let alpha = alphabet(*nodes, ops);
         let mut bfs = Bfs::new(alpha.len(), *depth);
-        bfs.deadline = Some(Instant::now() + Duration::from_secs(if thorough { 900 } else { 25 }));
+        bfs.deadline = Some(Instant::now() + Duration::from_secs(if thorough { 900 } else { 120 }));
         let disabled = std::sync::atomic::AtomicU64::new(0);
         let stats = bfs.run("init", |hist, ev| match run(*nodes, *max_ops, &alpha, hist, ev) {
             None => {
